@@ -159,6 +159,15 @@ func (s *Server) Crashed() (bool, string) {
 	return false, ""
 }
 
+// Kill ends the server at once (no graceful shutdown) and removes its directory.
+func (s *Server) Kill() {
+	if s.cmd != nil && s.cmd.Process != nil {
+		_ = s.cmd.Process.Kill()
+		_, _ = s.cmd.Process.Wait()
+	}
+	os.RemoveAll(s.Dir)
+}
+
 // Stop terminates the server and removes its directory; returns the log.
 func (s *Server) Stop() string {
 	if s.cmd != nil && s.cmd.Process != nil {
